@@ -131,6 +131,16 @@ package dagsync
 //@   ghost segSync0 := zero("*cid.Cid")
 //@   at call reset#1: ghost segSync0 := segSync.nextSyncCid
 //@   at call withRecursionLimit#1: assert arg0 == sel && arg1.mode == 1 && arg1.depth == nextDepth
+// the selector handed to a segment's Sync is the one built for that segment's depth:
+//@   ghost gdepth := 0
+//@   ghost gsel := zero("ipld.Node")
+//@   at call withRecursionLimit#1: after ghost gdepth := arg1.depth
+//@   at call withRecursionLimit#1: after ghost gsel := result0
+//@   at call Sync#2: assert gdepth == nextDepth && arg3 == gsel
+// the stop block is never the root of a further segment (it would be fetched: the selector's stop
+// condition does not apply to the root of a traversal):
+//@   at call Sync#2: assert depthSoFar > 0 && stopAtCid != cid.Undef ==> arg2 != stopAtCid
+//@   loop 1: invariant depthSoFar > 0 && stopAtCid != cid.Undef ==> *segSync.nextSyncCid != stopAtCid
 //@   loop 1: invariant syncBySegment && segdl >= 1 && 1 <= nextDepth && nextDepth <= segdl && 0 <= depthSoFar
 //@   loop 1: invariant origLimit.mode == 1 ==> depthSoFar < origLimit.depth && nextDepth == min(segdl, origLimit.depth - depthSoFar) && origLimit.depth > segdl
 //@   loop 1: invariant origLimit.mode != 1 ==> nextDepth == segdl
@@ -224,6 +234,9 @@ package dagsync
 //@   assumes str(cid.Undef.str) == str("")
 //@   ensures-local old(s.expSyncClosed) ==> result1 != nil && count("wg.add:expSyncWG") == 0 && count("call:handle") == 0
 //@   ensures-local !old(s.expSyncClosed) ==> count("wg.add:expSyncWG") == 1 && count("wg.done:expSyncWG") == 1
+// the sync stays registered (Close waits for it) until all of its work is done:
+//@   ensures-local before("wg.add:expSyncWG", "call:handle") && before("wg.add:expSyncWG", "call:GetHead") && before("wg.add:expSyncWG", "call:makeSyncer")
+//@   ensures-local notafter("call:handle", "wg.done:expSyncWG") && notafter("call:GetHead", "wg.done:expSyncWG") && notafter("call:makeSyncer", "wg.done:expSyncWG") && notafter("call:sendSyncFinishedEvent", "wg.done:expSyncWG") && notafter("call:updatePeerstore", "wg.done:expSyncWG") && notafter("call:getOrCreateHandler", "wg.done:expSyncWG")
 //@   ensures-local result1 != nil ==> count("call:sendSyncFinishedEvent") == 0 && count("call:updatePeerstore") == 0 && str(result0.str) == str("")
 //@   ensures-local headFailed ==> result1 != nil && count("call:handle") == 0
 //@   ensures-local count("call:handle") <= 1 && count("call:sendSyncFinishedEvent") <= 1
@@ -267,6 +280,9 @@ package dagsync
 //@   ghost failed := false
 //@   at call handle#1: after ghost failed := result1 != nil
 //@   ensures-local count("atomic.swap:pendingMsg") <= 1 && count("call:handle") <= 1
+// the pending slot is only ever emptied here (taking the newest announcement); nothing is put back, so
+// that the watcher's "spawn iff the slot was empty" rule keeps every later announcement acted on:
+//@   ensures-local count("atomic.cas:pendingMsg") == 0 && count("atomic.store:pendingMsg") == 0
 //@   ensures-local count("call:handle") == 1 && failed ==> count("send:inEvents") == 1 && count("call:sendSyncFinishedEvent") == 0 && count("call:updatePeerstore") == 0
 //@   ensures-local count("call:handle") == 1 && failed ==> evarg("send:inEvents", 1) == str(taken.Cid.str) && evarg("send:inEvents", 2) == str(h.peerID) && evarg("send:inEvents", 4) != 0
 //@   ensures-local count("call:handle") == 1 && failed && h.subscriber.receiver != nil ==> count("call:UncacheCid") == 1
@@ -285,6 +301,8 @@ package dagsync
 //@   requires wg(s.asyncWG) >= 1
 //@   mayblock
 //@   at call asyncSyncAdChain#1: assert held(hnd.asyncMutex)
+// the sync starts with a concurrency slot, or (context cancelled) only to be abandoned:
+//@   at call asyncSyncAdChain#1: assert s.syncSem != nil ==> count("send:syncSem") == 1 || count("recv:Done") == 1
 //@   ensures-local count("call:asyncSyncAdChain") == 1 && count("wg.done:asyncWG") == 1 && before("call:asyncSyncAdChain", "wg.done:asyncWG")
 //@   ensures-local before("lock:asyncMutex", "call:asyncSyncAdChain")
 //@   ensures-local count("send:syncSem") == count("recv:syncSem")
@@ -320,6 +338,8 @@ package dagsync
 //@   at call handle#1: assert arg2 == entCid && arg3 == sel && arg5 == bh && arg6 == segdl && str(arg7.str) == str("")
 //@   ensures-local entCid != cid.Undef && old(s.expSyncClosed) ==> result != nil && count("wg.add:expSyncWG") == 0 && count("call:handle") == 0
 //@   ensures-local entCid != cid.Undef && !old(s.expSyncClosed) ==> count("wg.add:expSyncWG") == 1 && count("wg.done:expSyncWG") == 1
+//@   ensures-local before("wg.add:expSyncWG", "call:handle") && before("wg.add:expSyncWG", "call:makeSyncer")
+//@   ensures-local notafter("call:handle", "wg.done:expSyncWG") && notafter("call:makeSyncer", "wg.done:expSyncWG") && notafter("call:getOrCreateHandler", "wg.done:expSyncWG")
 //@   ensures-local entCid == cid.Undef ==> result == nil && count("call:handle") == 0 && count("wg.add:expSyncWG") == 0
 //@   ensures-local count("call:sendSyncFinishedEvent") == 0
 
